@@ -114,10 +114,9 @@ class ErrorHandling:
                 expected['[string]'] = token_name
 
             elif isinstance(value, str):
-                value = value.replace('\\b', '').replace('\\', '')
-
                 # doesn't content regexp
                 if '\\s' not in value and '|' not in value:
+                    value = value.replace('\\b', '').replace('\\', '')
                     expected[value] = token_name
 
         suggestions = []
